@@ -143,6 +143,14 @@ CHECKS.update({
             TRUST_HTTP + ' A wall-clock timeout alone never produces a verdict.', '4.16'),
 })
 
+CHECKS.update({
+    'C17': ('exploration',
+            'stateful runtime monitor: random management histories through the real endpoints; after every step raw-SQL integrity queries, blob-store comparison, deletion-ownership check on the before/after diff, serve probe of every listed object and byte-exact read-back of indexed uploads',
+            'Hundreds of histories of 5..40 operations per run from an empty store (snapshot/restore), arguments drawn from existing and missing '
+            'objects, duplicate names and the same file name in another stream; failing histories are written out completely and can be replayed.',
+            TRUST_HTTP, '4.17'),
+})
+
 NOT_YET = {}
 
 
